@@ -44,6 +44,20 @@
 (*                          accounts provider compacted): right whenever every listed validator    *)
 (*                          has an account; rejected once the answer is partial                    *)
 (* PairedOwn / SubmittedRight must hold for every legal value.                                     *)
+(*                                                                                                *)
+(* SIBLING CALLERS of the batch contract are values of the duty's `op` (CallerOps):                *)
+(*   "attestations"  attester.Attest -> SignBeaconAttestations -> attestations (above)             *)
+(*   "sync_root"     synccommitteemessenger.Message -> SignSyncCommitteeRoots -> sync committee     *)
+(*                   messages: the duty lists validators (entries; c is not used), validators      *)
+(*                   without an account are left out of the batch (a nil entry would fail it) and  *)
+(*                   the signatures are mapped back; every position signs the same block root, so  *)
+(*                   the signer call shows no pairing - what leaves does: a message is attributed  *)
+(*                   to the validator whose INDEX it carries (written as that validator's entry:   *)
+(*                   committee, pos) and must verify under that validator's key, DOMAIN_SYNC_-      *)
+(*                   COMMITTEE at the slot's epoch.  No `attested` filter on this path.             *)
+(* (SignSlotSelections / SignSyncCommitteeSelections / SignContributionAndProofs have callers of   *)
+(* the same shape - beaconcommitteesubscriber, the messenger's Prepare, synccommitteeaggregator;   *)
+(* they are not bound, see docs/C06.md.)                                                            *)
 EXTENDS Signer
 
 CONSTANTS NVal,          \* our validators are 1..NVal
@@ -53,6 +67,11 @@ CONSTANTS NVal,          \* our validators are 1..NVal
           Pairing        \* see above
 
 Validators == 1..NVal
+
+\* which callers deliver duties: subset of {"attestations", "sync_root"} (cfg files override: CallerOps <- OpsSync)
+CallerOps == {"attestations"}
+OpsSync == {"sync_root"}
+OpsBoth == {"attestations", "sync_root"}
 
 VARIABLES acct,        \* the instance's accounts: validator -> account kind, or "none" (no validating account at the
                        \* epoch: not in the wallet / validator not active) - the accounts provider's answer is partial
@@ -66,7 +85,7 @@ VARIABLES acct,        \* the instance's accounts: validator -> account kind, or
 cvars == <<acct, attested, cpc, duty, elig, cal, submitted>>
 allvars == <<vars, cvars>>
 
-NoDuty == [slot |-> -1, entries |-> <<>>]
+NoDuty == [op |-> "none", slot |-> -1, entries |-> <<>>]
 NoCal == [vals |-> <<>>, cidx |-> <<>>]
 
 \* the position in committee: any function that gives the validators of one committee different positions
@@ -78,7 +97,12 @@ EntrySeqs == {e \in UNION {[1..n -> [v : Validators, c : Committees]] : n \in 1.
                  /\ \A j, k \in 1..Len(e) : j # k => e[j].v # e[k].v
                  /\ Sorted(e)}
 WithPos(e) == [j \in 1..Len(e) |-> [v |-> e[j].v, c |-> e[j].c, p |-> PosOf(e[j].v, e[j].c)]]
-Duties == {[slot |-> s, entries |-> WithPos(e)] : s \in CallerSlots, e \in EntrySeqs}
+Duties == {[op |-> "attestations", slot |-> s, entries |-> WithPos(e)] : s \in (IF "attestations" \in CallerOps THEN CallerSlots ELSE {}), e \in EntrySeqs}
+          \cup
+          \* the sync committee messenger's duty: validators only (one committee index for all, not used)
+          {[op |-> "sync_root", slot |-> s, entries |-> WithPos(e)] :
+              s \in (IF "sync_root" \in CallerOps THEN CallerSlots ELSE {}),
+              e \in {x \in EntrySeqs : \A j \in 1..Len(x) : x[j].c = CHOOSE c \in Committees : TRUE}}
 
 \* the account populations of an instance (cfg files override)
 AcctChoices == [Validators -> {"plain", "plain_dist", "none"}]
@@ -120,9 +144,11 @@ Deliver(r, d) ==
     /\ cpc[r] = "none"
     /\ \A q \in Rids : q < r => cpc[q] # "none"
     /\ LET e == EpochOfSlot(d.slot)
-           keep == SelectSeq(DutyVals(d), LAMBDA v : <<e, v>> \notin attested)
+           \* (the attester's memory of who attested this epoch; the messenger keeps none)
+           keep == IF d.op = "attestations" THEN SelectSeq(DutyVals(d), LAMBDA v : <<e, v>> \notin attested)
+                   ELSE DutyVals(d)
        IN /\ elig' = [elig EXCEPT ![r] = keep]
-          /\ attested' = attested \cup {<<e, keep[j]>> : j \in 1..Len(keep)}
+          /\ attested' = IF d.op = "attestations" THEN attested \cup {<<e, keep[j]>> : j \in 1..Len(keep)} ELSE attested
     /\ duty' = [duty EXCEPT ![r] = d]
     /\ cpc' = [cpc EXCEPT ![r] = "delivered"]
     /\ UNCHANGED <<vars, acct, cal, submitted>>
@@ -140,7 +166,8 @@ CallerCallWith(r, vals, cidx) ==
     \* = Call(r, c) of Signer.tla, the request BUILT by the caller (a delivery that ends without a signer call
     \* leaves its request number unused, so Call's "numbered in call order" does not apply)
     /\ pc[r] = "idle"
-    /\ LET c == [op |-> "attestations", slot |-> duty[r].slot, epoch |-> CHOOSE e \in GivenEpochs : TRUE,
+    /\ LET c == [op |-> duty[r].op, slot |-> duty[r].slot,
+                 epoch |-> IF duty[r].op = "sync_root" THEN EpochOfSlot(duty[r].slot) ELSE CHOOSE e \in GivenEpochs : TRUE,
                  kinds |-> [j \in 1..Len(vals) |-> acct[vals[j]]], fail |-> "none", failidx |-> 0]
        IN /\ ValidCall(c)
           /\ req' = [req EXCEPT ![r] = c]
@@ -190,10 +217,14 @@ SignedBy(r, s, slot, committee) ==
     IF /\ s # Absent
        /\ s.key[1] \in Rids /\ cal[s.key[1]] # NoCal /\ s.key[2] \in 1..Len(cal[s.key[1]].vals)
        /\ s.key[3] = VerKey(acct[cal[s.key[1]].vals[s.key[2]]])        \* the validator's public key (composite for Dirk)
-       /\ s.msg.container = "AttestationData"
-       /\ s.msg.slot = slot
-       /\ s.msg.variant \in 1..Len(cal[r].cidx) /\ cal[r].cidx[s.msg.variant] = committee
-       /\ s.dom = [type |-> <<1, 0, 0, 0>>, ver |-> IF slot \div boot.spe < fork THEN "old" ELSE "new"]
+       /\ IF duty[r].op = "attestations"
+          THEN /\ s.msg.container = "AttestationData"
+               /\ s.msg.slot = slot
+               /\ s.msg.variant \in 1..Len(cal[r].cidx) /\ cal[r].cidx[s.msg.variant] = committee
+               /\ s.dom = [type |-> <<1, 0, 0, 0>>, ver |-> IF slot \div boot.spe < fork THEN "old" ELSE "new"]
+          ELSE /\ s.msg.container = "BlockRoot"            \* the same root for every position of the batch
+               /\ s.msg.epoch = slot \div boot.spe
+               /\ s.dom = [type |-> <<7, 0, 0, 0>>, ver |-> IF slot \div boot.spe < fork THEN "old" ELSE "new"]
     THEN cal[s.key[1]].vals[s.key[2]]
     ELSE 0
 
